@@ -178,6 +178,7 @@ End O13.
 
 Definition case_C13 := case_sync.
 Definition mismatch_C13 (c : case_C13) : bool := mismatch_case c.
-Definition violation_C13 (c : case_C13) : bool := negb (holds_C13 (cs_frepr c) (cs_case c)).
+(* the permission bits are observed next to the trees (SyncObs.perm_row): "touches nothing else" includes them *)
+Definition violation_C13 (c : case_C13) : bool := negb (holds_C13 (cs_frepr c) (cs_case c) && perm_frame_ok c).
 Definition mismatches_C13 (cs : list case_C13) : list N := indices_where mismatch_C13 cs.
 Definition violations_C13 (cs : list case_C13) : list N := indices_where violation_C13 cs.
